@@ -97,6 +97,10 @@ def run(ctx):
         if not guarded:
             ctx.violation("R-ORDER", put.id, "unconditional eviction",
                           "put evicts without a dominating comparison of the current length with the capacity", put.file, c["ln"])
+    # lock order inside the map (two threads on put / evict must not block each other forever)
+    from rules import sync
+    sync.lock_order(ctx, fx, "src/containers/specialized/lru_map.rs")
+    ctx.floor("R-LOCKORDER.acquisitions", 10)
     # routing purity of the sharded map
     ss = need(fx, CM + "select_shard")
     ctx.analysed_fns.add(ss.id)
